@@ -36,7 +36,15 @@ LIMITS = ["not asserted by the code, hence not covered (a violation passes silen
           "Linear norm check is strict (|norm - 1| < eps) and passes any column with norm < 1e-8 (documented: an "
           "all-zero column cannot be normalised)",
           "cases whose decisive difference is within 1e-9 of +-eps are not generated (float rounding decides there)",
-          "RTL with parameterization='kronecker_factored' is covered through the KFL layer only, not through RTL"]
+          "RTL with parameterization='kronecker_factored' is covered through the KFL layer only, not through RTL",
+          "Linear normalization_order: only None, 1 and 2 are generated and modelled. The code hands any other order "
+          "to tf.norm(ord=...) (3, np.inf, 'euclidean', ...) while Model/Asserts.v norm_ok treats every order other "
+          "than 1 as L2; an order of 0 skips the check in the code ('if normalization_order:') but would be checked as "
+          "L2 by the model (li_norm = Some 0): orders outside {None, 1, 2} are outside the correspondence",
+          "eps <= 0 together with an EMPTY reduction (no instance of a constraint kind, e.g. zero-length dimension "
+          "lists) is not generated: TensorFlow's reduce_min of an empty tensor is +inf (the assert passes for every "
+          "eps) whereas the model's qminl [] is 0 (passes only for eps >= 0); generated eps values are positive and "
+          "every modelled reduction is taken over at least one instance"]
 
 
 def prod(xs):
